@@ -275,7 +275,8 @@ static DATE_ALIKE_REGEX: LazyLock<Regex> = LazyLock::new(|| {
 });
 
 fn looks_like_expression(s: &str) -> bool {
-    !s.split(|c: char| !c.is_ascii_alphanumeric()).any(|s| {
+    // names may contain an underscore (`line_count`, `mp3_bitrate`, `current_uid`)
+    !s.split(|c: char| !c.is_ascii_alphanumeric() && c != '_').any(|s| {
         Field::from_str(s).is_err() && Function::from_str(s).is_err() && s.parse::<i64>().is_err()
     })
 }
